@@ -584,7 +584,7 @@ Lemma types_ok_tuple : forall ts cs, List.length cs = List.length ts ->
     types_ok ts = encode_tuple_ok (combine ts cs).
 Proof.
   intros ts cs H. unfold types_ok. apply encode_tuple_ok_types.
-  rewrite (map_fst_combine ts cs H), map_map. cbn [fst]. symmetry. apply map_id.
+  rewrite (map_fst_combine ts cs H), map_map. cbn [fst]. apply map_id.
 Qed.
 
 Lemma set_correct_tuple : forall nm ts, Forall set_correct ts -> forallb pyteal_ty ts = true ->
